@@ -246,6 +246,8 @@ def run_check(prop, tier):
                 open_ids.add(e["id"])
                 w = os.path.join(VERIF, e["witness"])
                 rp = sh([exe, "-replay", w, "-model", os.path.join(OCAML, "xmodel")] + (["-cli", cli] if cli else []), cwd=scratch, env=GOENV, check=False)
+                if rp.returncode not in (0, 1):
+                    broken.append(("corpus", "cannot replay the witness %s: %s" % (w, rp.stdout[-300:])))
                 if rp.returncode == 1 or (stats.get("known_findings") or {}).get(e["id"], 0) > 0:
                     known_printed.append("KNOWN-FINDING: property=%s %s" % (prop, e["what"]))
             nfixed = 0
